@@ -211,6 +211,10 @@ class SqlalchemyRender:
 
             method = opmap[t.op.upper()]
             col = getattr(arg, method)()
+            if method == '__invert__' and getattr(arg, 'negate', None) is not None and arg.negate is getattr(arg, 'operator', None):
+                # sqlalchemy only knows the negation of `x IS NULL / true / false`; for `x IS <bound value or column>` its `~` changes nothing: say NOT
+                col = sa.sql.elements.UnaryExpression(
+                    arg.self_group(against=sa.sql.operators.inv), operator=sa.sql.operators.inv, type_=sa.Boolean())
             if t.alias:
                 alias = self.get_alias(t.alias)
                 col = col.label(alias)
